@@ -349,3 +349,87 @@ func rootOf(f *Func) *Func {
 	}
 	return f
 }
+
+// ---- type roles ----
+
+type typeRole struct {
+	Canon string
+	Pkg   string // package path suffix ("" = root)
+	Match func(st *types.Struct) bool
+}
+
+func hasFieldOfType(st *types.Struct, typ string, embedded bool) bool {
+	q := func(pk *types.Package) string { return pk.Name() }
+	for i := 0; i < st.NumFields(); i++ {
+		if types.TypeString(st.Field(i).Type(), q) == typ && (!embedded || st.Field(i).Embedded()) {
+			return true
+		}
+	}
+	return false
+}
+
+var typeRoles = []typeRole{
+	{"rmListener", "", func(st *types.Struct) bool {
+		return hasFieldOfType(st, "net.Listener", true) && hasFieldOfType(st, "func() error", false)
+	}},
+	{"muxBrokerPending", "", func(st *types.Struct) bool {
+		return st.NumFields() == 2 && hasFieldOfType(st, "chan net.Conn", false) && hasFieldOfType(st, "chan struct{}", false)
+	}},
+	{"gRPCBrokerPending", "", func(st *types.Struct) bool {
+		return hasFieldOfType(st, "chan *plugin.ConnInfo", false) && hasFieldOfType(st, "chan struct{}", false) && !hasFieldOfType(st, "chan *plugin.sendErr", false) && st.NumFields() <= 4
+	}},
+}
+
+func (p *Prog) assignTypeRoles() {
+	for _, tr := range typeRoles {
+		pkPath := modPath + tr.Pkg
+		pk := p.Pkgs[pkPath]
+		if pk == nil {
+			continue
+		}
+		sc := pk.Types.Scope()
+		if sc.Lookup(tr.Canon) != nil {
+			continue
+		}
+		var cands []*types.TypeName
+		for _, n := range sc.Names() {
+			tn, ok := sc.Lookup(n).(*types.TypeName)
+			if !ok || tn.IsAlias() {
+				continue
+			}
+			if st, ok := tn.Type().Underlying().(*types.Struct); ok && tr.Match(st) {
+				cands = append(cands, tn)
+			}
+		}
+		if len(cands) == 1 {
+			p.typeCanon[cands[0]] = tr.Canon
+			p.typeByCanon[tr.Canon] = cands[0]
+		}
+	}
+}
+
+// serialLockVars: mutexes whose purpose is to serialise a whole operation —
+// the one Client.Start/Client.Client take, and the one the multiplexed dialer takes.
+func (p *Prog) serialLockVars() map[*types.Var]string {
+	out := map[*types.Var]string{}
+	add := func(f *Func, why string) {
+		if f == nil {
+			return
+		}
+		for _, call := range f.Calls() {
+			if v, op := p.lockOp(f, call); v != nil && op == "lock" {
+				out[v] = why
+			}
+		}
+	}
+	add(p.Fn("Client.Start"), "Start/Client() are serialised under the client lock by design; their waits are bounded by StartTimeout and the exit context (R-BOUND decides that)")
+	add(p.Fn("Client.Client"), "Start/Client() are serialised under the client lock by design; the connect path contains no unbounded wait")
+	if md := p.Fn("GRPCBroker.muxDial"); md != nil {
+		for _, lf := range p.Funcs {
+			if lf.Lit != nil && lf.Parent == md {
+				add(lf, "exists to serialise knock+dial of multiplexed connections (R-MUXSER requires it); the waits under it have a 5 s timer or the broker's quit arm")
+			}
+		}
+	}
+	return out
+}
